@@ -7,6 +7,7 @@
      C <name hex>          -> rendering TAB flag (grammar-level: read back as the same operator when followed by a blank)
      N <mark 0/1/2> <socket 0/1/2> <id hex>         -> rendering TAB flag
      X <0/1>   R <0/1>     -> rendering of the cut marker with "=>" / of the range operator
+     T <name_like 0/1> <op hex> -> Type1 layout of `x <op> y` (name_like) resp. `1 <op> y`
      M <toks> <anchors> <containers>  toks: lo,hi,line,pure,id;...  anchors: kind,lo,hi,line;...  containers: lo,hi;...
                            -> per-anchor id lists ';'-separated | orphans | dropped
      X <hex text>  (as K)  K <hex text> -> comments of the text as the lexical model sees them (hex, each followed by ',') *)
@@ -86,6 +87,7 @@ let () =
       | "N" :: m :: s :: h :: _ -> out (marked_line (n_of_dec m) (n_of_dec s) (bytes_of_hex h))
       | "X" :: b :: _ -> out (cut_line (b = "1"))
       | "R" :: b :: _ -> out (rangeop_line (b = "1"))
+      | "T" :: nl :: h :: _ -> out (type1_line (nl = "1") (bytes_of_hex h))
       | "M" :: toks :: anchors :: conts :: _ ->
         let tok s = match split ',' s with
           | [lo; hi; line; pure; id] -> { c_lo = n_of_dec lo; c_hi = n_of_dec hi; c_line = n_of_dec line; c_pure = (pure = "1"); c_id = n_of_dec id }
